@@ -56,9 +56,11 @@ def cookie_cfg(name):
     if name == 'dict-str':
         return ({'name': 'sess', 'path': '/app', 'SameSite': 'Strict'},
                 ('sess', {'path': '/app', 'SameSite': 'Strict'}))
-    return ({'name': 'c2', 'Secure': True, 'HttpOnly': False, 'Max-Age': lambda: '3600',
-             'domain': 'example.com'},
-            ('c2', {'Secure': True, 'Max-Age': '3600', 'domain': 'example.com'}))
+    # (attribute values may be callables: called per cookie, True = bare attribute, False = none)
+    return ({'name': 'c2', 'Secure': True, 'HttpOnly': lambda: False, 'Max-Age': lambda: '3600',
+             'domain': 'example.com', 'Partitioned': lambda: True, 'Priority': False},
+            ('c2', {'Secure': True, 'Max-Age': '3600', 'domain': 'example.com',
+                    'Partitioned': True}))
 
 
 def cells():
